@@ -8,7 +8,7 @@ import dbmodel as M
 import iotie
 
 KINDS = ["insert", "insert_multiple", "remove_some", "remove_none", "remove_all_match", "update_some",
-         "update_nochange", "drop", "remove_all", "handle_update", "insert_multiple_bad", "update_raises", "update_shrink", "remove_most", "insert_big_rows", "update_newest_big", "insert_after_failed_update_big"]
+         "update_nochange", "drop", "remove_all", "handle_update", "insert_multiple_bad", "update_raises", "update_shrink", "remove_most", "insert_big_rows", "update_newest_big", "insert_after_failed_update_big", "insert_newer_unsorted"]
 BAD = [{"time": 0, "meas": "<undecodable>", "tags": {}, "fields": {}}]
 
 
@@ -28,7 +28,7 @@ def main(tier, seed):
     refused = []
     # the storage's I/O calls are regenerated from storages.py (symbolic execution) and proved equal to the model's scripts (proofs/IOGenP.v)
     b = ck.build_proofs("Prop_C12", pre=lambda: run_translator("py2coq_io.py", "tinyflux/storages.py", "gen/IOGen.v", refused), extra_targets=["Run.vo", "IO.vo"])
-    n_cases = 17 if tier == "quick" else 153
+    n_cases = 18 if tier == "quick" else 162
     cases = iotie.io_cases(seed, n_cases, kinds=KINDS)
     coq_cases, direct_bad, n_pairs, kinds, hard_checked = [], [], 0, {}, 0
     for ci, (hist, op, auto, kind) in enumerate(cases):
@@ -41,6 +41,13 @@ def main(tier, seed):
         la = iotie.logical_contents(tf, str(ck.work / f"la{ci}"), list(hist) + [op], auto)
         if lb is not None and la is not None:
             rec["before"], rec["after"] = lb, la
+            if op[0] == "insert" and all(p is not None and p.get("time") is not None for p in op[1]) and iotie.same_points(la[:len(lb)], lb):
+                # "the old contents plus a prefix of the new points": the new points are the batch AS GIVEN, in the order given
+                given, stored = [p["time"] for p in op[1]], [p["time"] for p in la[len(lb):]]
+                if given != stored and len(direct_bad) < 4:
+                    direct_bad.append({"kind": "failing-input", "history": hist, "op": op, "auto_index": auto, "contents_before_op": lb, "contents_after_op": la,
+                                       "times_given": given, "times_stored_after_the_old_contents": stored,
+                                       "why": "the completed insert did not append the batch in the order given: a crash inside it cannot leave the old contents plus a prefix of the new points"})
         n = len(rec["events"])
         kinds[kind] = kinds.get(kind, 0) + n + 1
         obs = []
